@@ -291,8 +291,8 @@ class GraphInitializers(collections.UserDict[str, "_core.Value"]):
             return
         value._graph = None
 
-    def __setitem__(self, key: str, value: _core.Value) -> None:
-        """Set an initializer for the graph."""
+    def _check_item(self, key: str, value: _core.Value) -> None:
+        """Check that ``self[key] = value`` is acceptable, without modifying anything."""
         if not isinstance(value, _core.Value):
             raise TypeError(f"value must be a Value object, not {type(value)}")
         if not isinstance(key, str):
@@ -307,9 +307,21 @@ class GraphInitializers(collections.UserDict[str, "_core.Value"]):
             raise ValueError(
                 f"Value '{value}' is produced by a node and cannot be a graph initializer"
             )
+        self._check_graph(value)
+
+    def update(self, other=(), /, **kwargs) -> None:
+        """Update the initializers; all items are checked before the first one is stored."""
+        items = list(dict(other, **kwargs).items())
+        for key, value in items:
+            self._check_item(key, value)
+        for key, value in items:
+            self[key] = value
+
+    def __setitem__(self, key: str, value: _core.Value) -> None:
+        """Set an initializer for the graph."""
         # Perform all checks before modifying anything so that when there is an error,
         # the value, the replaced initializer and the dictionary are not modified
-        self._check_graph(value)
+        self._check_item(key, value)
         if not value.name:
             logger.info("Value %s does not have a name, setting it to '%s'", value, key)
             value.name = key
